@@ -29,6 +29,8 @@ for line in sys.stdin:
         n = 'r8-' + n.lstrip('b')
     if '/out9-' in r['seed']:
         n = 'r9-' + n.lstrip('b')
+    if '/out10-' in r['seed']:
+        n = 'r10-' + n.lstrip('b')
     dst = '/verif/seeded/%s-%s' % (prop, n)
     os.makedirs(dst, exist_ok=True)
     for f in ('patch.diff', 'demo.py'):
